@@ -305,8 +305,12 @@ static cfg_opt_t *cfg_getopt_secidx(cfg_t *cfg, const char *name,
 			/* no more subsections */
 			break;
 
-		if (!len)
+		if (!len) {
+			/* a step without a name ("sec|=x", "=x") is no section */
+			if (index)
+				opt = NULL;
 			break;
+		}
 
 		secname = strndup(name, len);
 		if (!secname)
